@@ -194,13 +194,17 @@ DoCosmos ==
 
 DoEnd ==
   /\ Ev.ev = "End"
-  /\ LET bad == IF Ev.panic THEN <<"EndPanic", "block-panicked">>
+  /\ LET hasGov == "gov" \in DOMAIN Ev
+         SG == IF hasGov THEN GovEndBlock(S, Ev.gov) ELSE S      \* the gov end-blocker comes first
+         bad == IF Ev.panic THEN <<"EndPanic", "block-panicked">>
                 ELSE IF Ev.blockGas # -1 /\ Ev.blockGas # GasForFeeMarket(S) THEN <<"FeeMarket", "block-gas">>
-                ELSE IF ~EndBlockOk(S, Ev.nextBaseFee) THEN <<"FeeMarket", "next-base-fee">>
+                ELSE IF ~EndBlockOk(SG, Ev.nextBaseFee) THEN <<"FeeMarket", IF hasGov THEN "next-base-fee-after-param-change" ELSE "next-base-fee">>
+                ELSE IF Ev.nextBaseFee < SG.minGP THEN <<"FeeMarket", "next-base-fee-below-min-gas-price">>
                 ELSE IF ToSet(Ev.blockBloomBits) # BlockBloom(S) THEN <<"BlockBloom", "block-bloom">>
                 ELSE OK
-     IN /\ Settle(bad, [S EXCEPT !.baseFee = Ev.nextBaseFee])
-        /\ UNCHANGED <<nAdmitted, cls>>
+     IN /\ Settle(bad, [(IF hasGov THEN AfterEndBlock(SG, Ev.gov) ELSE SG) EXCEPT !.baseFee = Ev.nextBaseFee])
+        /\ cls' = IF hasGov THEN Bump(cls, IF Ev.gov.passed THEN "end.gov-params-executed" ELSE "end.gov-proposal-rejected") ELSE cls
+        /\ UNCHANGED nAdmitted
 
 (* the recorded state replaces the model's when they differ outside Focus *)
 Adopt(e) == [S EXCEPT !.w = [WorldOfGenesis(e) EXCEPT !.burnt = S.w.burnt, !.burnt2 = S.w.burnt2], !.baseFee = e.baseFee]
